@@ -570,9 +570,9 @@ class SK(object):
             raise Raised('ZeroDivisionError', 'division by the difference of two equal knots', node)
         if isinstance(a, Ord) and isinstance(b, Ord) and op is o.sub:
             return Gap(a.rank - b.rank)
-        if isinstance(a, Gap) and isinstance(b, (int, float)) and not isinstance(b, bool) and op in (o.truediv, o.mul) and b != 0:
+        if isinstance(a, Gap) and isinstance(b, (int, float)) and not isinstance(b, bool) and (op is o.mul or (op is o.truediv and b != 0)):
             return Gap(op(a.mag, float(b)))
-        if isinstance(b, Gap) and isinstance(a, (int, float)) and not isinstance(a, bool) and op is o.mul and a != 0:
+        if isinstance(b, Gap) and isinstance(a, (int, float)) and not isinstance(a, bool) and op is o.mul:
             return Gap(a * b.mag)
         if isinstance(a, Ord) and isinstance(b, Gap) and op in (o.add, o.sub):
             return Ord(op(a.rank, b.mag))
